@@ -91,6 +91,17 @@ pub struct Ctx {
 }
 
 thread_local! {
+    static EXTRA_EVALS: std::cell::Cell<u64> = std::cell::Cell::new(0);
+}
+/// A sweep case that evaluates several inner cases (e.g. one table, many scalars) reports the extra ones here.
+pub fn bump(n: u64) {
+    EXTRA_EVALS.with(|c| c.set(c.get() + n));
+}
+fn take_bump() -> u64 {
+    EXTRA_EVALS.with(|c| c.replace(0))
+}
+
+thread_local! {
     static LAST_PANIC: RefCell<Option<(String, String)>> = RefCell::new(None);
 }
 
@@ -301,13 +312,16 @@ impl Ctx {
                         let hi = (lo + chunk).min(n);
                         for i in lo..hi {
                             l.evals += 1;
-                            match panic::catch_unwind(AssertUnwindSafe(|| f(i))) {
+                            let res = panic::catch_unwind(AssertUnwindSafe(|| f(i)));
+                            let extra = take_bump();
+                            l.evals += extra;
+                            match res {
                                 Ok(Ok(class)) => {
                                     if !class.is_empty() {
                                         if !is_trivial_class(class) {
-                                            l.nontrivial += 1;
+                                            l.nontrivial += 1 + extra;
                                         }
-                                        *l.classes.entry(class).or_insert(0) += 1;
+                                        *l.classes.entry(class).or_insert(0) += 1 + extra;
                                     }
                                 }
                                 Ok(Err(fl)) => {
